@@ -39,6 +39,8 @@ pub struct ProbeSpec {
     /// from inside a handler (same trigger encoding), make upstream puppet `p` emit its next script
     /// item: a consumer that feeds, completes or fails the very source it listens to - (trigger, k, p)
     pub feed: Option<(u8, usize, usize)>,
+    /// this probe is only ever subscribed by another probe's handler (never by the driver)
+    pub only_attached: bool,
     /// the sink may send Pulls after it received the end or after it disposed (from_iter / C15 only)
     pub late_pulls: bool,
     /// the sink does not keep the talkback it is greeted with (it can then never act; conformant)
@@ -47,10 +49,10 @@ pub struct ProbeSpec {
 
 impl ProbeSpec {
     pub fn passive() -> Self {
-        ProbeSpec { policy: vec![], rest: React::Nothing, pull_cap: 1000, attach: None, poke: None, feed: None, late_pulls: false, drop_talkback: false }
+        ProbeSpec { policy: vec![], rest: React::Nothing, pull_cap: 1000, attach: None, poke: None, feed: None, only_attached: false, late_pulls: false, drop_talkback: false }
     }
     pub fn puller() -> Self {
-        ProbeSpec { policy: vec![], rest: React::Pull, pull_cap: 1000, attach: None, poke: None, feed: None, late_pulls: false, drop_talkback: false }
+        ProbeSpec { policy: vec![], rest: React::Pull, pull_cap: 1000, attach: None, poke: None, feed: None, only_attached: false, late_pulls: false, drop_talkback: false }
     }
 }
 
